@@ -215,6 +215,14 @@ func (t *streamableHTTPClientTransport) currentLastEventID() string {
 
 // setLastEventID records the last event ID under the state lock.
 func (t *streamableHTTPClientTransport) setLastEventID(eventID string) {
+	// The id is echoed to the server in a Last-Event-ID header. An id that is not valid header
+	// content (control bytes; the SSE specification already ignores ids containing NUL) would make
+	// net/http refuse every later request, so it is ignored like a malformed field.
+	for i := 0; i < len(eventID); i++ {
+		if c := eventID[i]; (c < 0x20 && c != '\t') || c == 0x7f {
+			return
+		}
+	}
 	t.stateMu.Lock()
 	t.lastEventID = eventID
 	t.stateMu.Unlock()
